@@ -17,6 +17,7 @@ func runC04(c *Ctx) {
 	c04BindSites(c)
 	c04KeyAgreement(c)
 	c04Order(c)
+	ruleSingleParser(c, "order")
 	c04MethodGate(c)
 	c07StampGuard(c)
 	c07StampContent(c)
